@@ -259,3 +259,74 @@ def returns_of_variant(prog, fn, adt, variant):
 def fmt_fn_line(fn, bb, idx="t"):
     ln = fn.line_of(bb, idx)
     return "%s:%s" % (fn.file, ln)
+
+
+def backward_fields(fn, operand, maxdepth=8):
+    """(adt, field) pairs read on the backward slice of an operand through local definitions
+    (all definitions of each local; call results depend on all call arguments)."""
+    out = set()
+    seen = set()
+    work = [(operand, 0)]
+    while work:
+        o, d = work.pop()
+        if not is_place(o):
+            continue
+        for (a, v, f) in proj_fields(o):
+            out.add((a, f))
+        l = o["l"]
+        if l in seen or d > maxdepth:
+            continue
+        seen.add(l)
+        for (bb, idx, kind, payload) in fn.defs().get(l, []):
+            if kind == "assign":
+                for x in rvalue_operands(payload):
+                    work.append((x, d + 1))
+            elif kind == "call":
+                for x in payload["args"]:
+                    work.append((x, d + 1))
+            elif kind == "partial":
+                st = payload
+                if isinstance(st, dict) and st.get("k") == "assign":
+                    for x in rvalue_operands(st["rv"]):
+                        work.append((x, d + 1))
+        # a reference local: `_r = &mut (*_1).field` then `(*_r) = ...` handled by caller
+    return out
+
+
+def ref_targets(fn):
+    """local -> place it borrows (`_l = &[mut] place`), single definition only"""
+    out = {}
+    for l, ds in fn.defs().items():
+        whole = [x for x in ds if x[2] != "partial"]
+        if len(whole) == 1 and whole[0][2] == "assign" and whole[0][3]["k"] == "ref":
+            out[l] = whole[0][3]["p"]
+    return out
+
+
+def backward_slice(fn, operand, maxdepth=10):
+    """(fields_read, callee names, const values) on the backward slice of an operand"""
+    fields, callees, consts = set(), set(), []
+    seen = set()
+    work = [(operand, 0)]
+    while work:
+        o, d = work.pop()
+        if is_const(o):
+            consts.append(o)
+            continue
+        if not is_place(o):
+            continue
+        for (a, v, f) in proj_fields(o):
+            fields.add((a, f))
+        l = o["l"]
+        if l in seen or d > maxdepth:
+            continue
+        seen.add(l)
+        for (bb, idx, kind, payload) in fn.defs().get(l, []):
+            if kind == "assign":
+                for x in rvalue_operands(payload):
+                    work.append((x, d + 1))
+            elif kind == "call":
+                callees.add(callee_name(payload) or "?")
+                for x in payload["args"]:
+                    work.append((x, d + 1))
+    return fields, callees, consts
